@@ -823,9 +823,9 @@ func genRequest(t *kernel.Tape, u *universe, servers map[string]*agd.Server, kin
 	case 2:
 		r.name, r.behaviour = "ratelimited-"+base+".example.", "ratelimited"
 	case 3:
-		r.name = kernel.Pick(t, []string{"gblocked.names.test.", "x.gsub.names.test.", "gsub.names.test.", "gtype.names.test.", "GBLOCKED.names.test."}, "gname")
+		r.name = kernel.Pick(t, []string{"gblocked.names.test.", "x.gsub.names.test.", "gsub.names.test.", "gtype.names.test.", "GBLOCKED.names.test.", "X.gSub.Names.Test.", "gType.names.test."}, "gname")
 	case 4:
-		r.name = kernel.Pick(t, []string{"pblocked.names.test.", "y.psub.names.test.", "ptype.names.test.", "notblocked.names.test."}, "pname")
+		r.name = kernel.Pick(t, []string{"pblocked.names.test.", "y.psub.names.test.", "ptype.names.test.", "notblocked.names.test.", "PBlocked.Names.test.", "y.pSuB.names.TEST.", "Ptype.names.test."}, "pname")
 	default:
 		r.name = base + ".example."
 	}
